@@ -1195,23 +1195,78 @@ theorem pdst_status (P : CPDST.Problem S U α ρ) (g : ρ) (starts : List S) (dr
       (CPDST.solve P g starts draws).final.lastGoal.isSome = true) :=
   ⟨(CPDST.solve_status P g starts draws).1, (CPDST.solve_status P g starts draws).2.2.2⟩
 
-/- NOT PROVED in this round (no `_partial` theorem is offered: nothing weaker was established):
+/-- **every path PDST reports replays.**  Hypotheses, all about how the code *finds* states again
+when it reconstructs the path (`findDurationAndAncestor` identifies states by
+`distance < float epsilon`, `P.close`): `hclose` — that identification is exact (without it only an
+"ε-close" replay can hold); `hrefl` — a state is close to itself (otherwise the search misses the
+state it is looking for, walks on to the start motion and answers `(0, root)` unchecked); `hmin` —
+`minControlDuration ≥ 1` (a zero-step non-start motion is treated like a start motion by the
+search).  `hrefl`/`hmin` are additions to the statement as first requested: the conclusion is false
+without them.  Then: the path starts at a valid start state, has matching lengths, and each control
+applied for its whole step count reproduces the next state exactly with every intermediate state
+valid — although the tree was rewritten by splits after the motions were created, and a reported
+segment generally spans several motions of one split chain (its step count is the *sum* found by
+`findDurationAndAncestor`).
 
-   theorem pdst_solution_replays (hclose : ∀ a b, P.close a b = true → a = b)
-       (hrefl : ∀ a, P.close a a = true) (hmin : 1 ≤ P.minSteps) (hrng …)
-       (h : (CPDST.solve P g starts draws).path = some p) :
-       ∃ s0 rest, p.states = s0 :: rest ∧ s0 ∈ starts ∧ P.valid s0 = true ∧
-         rest.length = p.controls.length ∧ p.steps.length = p.controls.length ∧
-         ReplayOK P.step P.valid s0 (segs rest p.controls p.steps)
+The four hypotheses, by kind:
+* `hclose : ∀ a b, P.close a b = true → a = b` and `hrefl : ∀ a, P.close a a = true` — facts about the code's
+  **float-ε state lookup** (`si_->distance(a, b) < numeric_limits<float>::epsilon()`), which the model treats as
+  *exact identification of states*.  This is an abstraction, named in the trusted base of checks/c02.py: two distinct
+  states of the tree closer than 1.2e-7 would be confused by the code (and the reported durations could then be off);
+  the lock-step and the replay oracle observe the real comparison on every explored run.
+* `hmin : 1 ≤ P.minSteps` — enforced by the library (`control::SpaceInformation::setup` throws for
+  `minControlDuration < 1`).
+* `hrng : ∀ g hi, 1 ≤ hi → 1 ≤ (P.rngInt1 g hi).1 ∧ (P.rngInt1 g hi).1 ≤ hi` — the contract of
+  `RNG::uniformInt(1, hi)` (true of the bit-exact RNG model the driver uses). -/
+theorem pdst_solution_replays (P : CPDST.Problem S U α ρ)
+    (hclose : ∀ a b, P.close a b = true → a = b) (hrefl : ∀ a, P.close a a = true)
+    (hmin : 1 ≤ P.minSteps)
+    (hrng : ∀ g hi, 1 ≤ hi → 1 ≤ (P.rngInt1 g hi).1 ∧ (P.rngInt1 g hi).1 ≤ hi) (g : ρ) (starts : List S)
+    (draws : List (CPDST.Draw S U)) (p : Path S U) (h : (CPDST.solve P g starts draws).path = some p) :
+    ∃ s0 rest, p.states = s0 :: rest ∧ s0 ∈ starts ∧ P.valid s0 = true ∧
+      rest.length = p.controls.length ∧ p.steps.length = p.controls.length ∧
+      ReplayOK P.step P.valid s0 (segs rest p.controls p.steps) := by
+  obtain ⟨l, _, ha⟩ := CPDST.solve_path P g starts draws p h
+  obtain ⟨s0, sl, _, rfl, h1, h2, h3, _, _⟩ := CPDST.assemble_spec P starts _ _
+    (CPDST.solve_good P hrng g starts draws).1 hclose hrefl hmin l p ha
+  refine ⟨s0, sl.map (·.2.2), rfl, h1, h2, by simp [ofSegs], by simp [ofSegs], ?_⟩
+  simp only [ofSegs, segs_map]; exact h3
 
-   theorem pdst_exact_path_in_goal : path = some p ∧ status = .exact →
-       ∃ last, p.states.getLast? = some last ∧ (P.goal last).1 = true
+/-- **an exact PDST path ends in the goal**: the last reported state is the end state of
+`lastGoalMotion_`, which satisfies the goal when the status is `exact`. -/
+theorem pdst_exact_path_in_goal (P : CPDST.Problem S U α ρ)
+    (hclose : ∀ a b, P.close a b = true → a = b) (hrefl : ∀ a, P.close a a = true)
+    (hmin : 1 ≤ P.minSteps)
+    (hrng : ∀ g hi, 1 ≤ hi → 1 ≤ (P.rngInt1 g hi).1 ∧ (P.rngInt1 g hi).1 ≤ hi) (g : ρ) (starts : List S)
+    (draws : List (CPDST.Draw S U)) (p : Path S U) (h : (CPDST.solve P g starts draws).path = some p) :
+    (∃ l m, (CPDST.solve P g starts draws).final.lastGoal = some l ∧
+      (CPDST.solve P g starts draws).final.motions[l]? = some m ∧ p.states.getLast? = some m.stop) ∧
+    ((CPDST.solve P g starts draws).status = .exact →
+      ∃ last, p.states.getLast? = some last ∧ (P.goal last).1 = true) := by
+  obtain ⟨l, hl, ha⟩ := CPDST.solve_path P g starts draws p h
+  obtain ⟨hG, hg⟩ := CPDST.solve_good P hrng g starts draws
+  obtain ⟨s0, sl, lm, rfl, _, _, _, h4, h5⟩ := CPDST.assemble_spec P starts _ _ hG hclose hrefl hmin l p ha
+  have hlast : (ofSegs s0 sl).states.getLast? = some lm.stop := by rw [← h5]; exact getLast?_states s0 sl
+  refine ⟨⟨l, lm, hl, h4, hlast⟩, ?_⟩
+  intro hex
+  obtain ⟨l', m', e1, e2, e3⟩ := hg.2 ((CPDST.solve_status P g starts draws).2.1 hex)
+  rw [hl] at e1; cases Option.some.inj e1
+  rw [h4] at e2; cases Option.some.inj e2
+  exact ⟨lm.stop, hlast, e3⟩
 
-   What is available for them: `pdst_segments_sound` (with `OnChain`) is exactly the hypothesis the
-   soundness of `findDA`/`chainUp` needs.  What is missing: the lemma "`OnChain ms mi s` and
-   `findDA … mi = some (d, a)` ⇒ `s = propagate ms[a].start u d` with all `d` steps valid" (needs
-   `hclose`; and `hrefl`, `hmin` so that a miss in one piece really means the state is further up), and
-   the induction over `assembleLoop` / the index arithmetic of `assemble`. -/
+/-- **every path PDST reports passes `PathControl::check`, before and after `interpolate`**
+(same hypotheses as `pdst_solution_replays`). -/
+theorem pdst_path_checks [DecidableEq S] (P : CPDST.Problem S U α ρ)
+    (hclose : ∀ a b, P.close a b = true → a = b) (hrefl : ∀ a, P.close a a = true)
+    (hmin : 1 ≤ P.minSteps)
+    (hrng : ∀ g hi, 1 ≤ hi → 1 ≤ (P.rngInt1 g hi).1 ∧ (P.rngInt1 g hi).1 ≤ hi) (g : ρ) (starts : List S)
+    (draws : List (CPDST.Draw S U)) (p : Path S U) (h : (CPDST.solve P g starts draws).path = some p) :
+    p.check P.step P.valid (fun a b => decide (a = b)) = true ∧
+    (p.interpolate P.step).check P.step P.valid (fun a b => decide (a = b)) = true := by
+  obtain ⟨s0, rest, h1, _, h3, h4, h5, h6⟩ := pdst_solution_replays P hclose hrefl hmin hrng g starts draws p h
+  refine ⟨check_complete P.step P.valid p s0 rest h1 h4 h5 h6 h3, ?_⟩
+  obtain ⟨rest', e1, e2, e3, e4, _⟩ := interpolate_preserves_replay P.step P.valid p s0 rest h1 h4 h5 h6
+  exact check_complete P.step P.valid _ s0 rest' e1 e2 e3 e4 h3
 
 /-- a fixed-point toy `Num Int` (scale 10, so that the `0.5` of `Cell::subdivide` exists) for kernel
 evaluation of the arithmetic-free control flow — not a model of `double` -/
@@ -1279,6 +1334,10 @@ theorem pdN_hrng : ∀ g hi, 1 ≤ hi → 1 ≤ (pdN.rngInt1 g hi).1 ∧ (pdN.rn
 
 example := @pdst_segments_sound Nat Nat Int Nat numFix pdN pdN_hrng 0 [0] pdScript
 example := @pdst_exact_goal Nat Nat Int Nat numFix pdN pdN_hrng 0 [0] pdScript
+example := @pdst_solution_replays Nat Nat Int Nat numFix pdN (fun a b h => by simpa [pdN] using h)
+  (fun a => by simp [pdN]) (Nat.le_refl 1) pdN_hrng 0 [0] pdScript
+example := @pdst_exact_path_in_goal Nat Nat Int Nat numFix pdN (fun a b h => by simpa [pdN] using h)
+  (fun a => by simp [pdN]) (Nat.le_refl 1) pdN_hrng 0 [0] pdScript
 example := @pdst_status Nat Nat Int Nat numFix pdN 0 [0] pdScript
 
 end OmplModel.Props.C02
